@@ -6,13 +6,19 @@ from typing import IO, Any
 
 from xdsl.context import Context
 from xdsl.dialects import pdl
-from xdsl.dialects.builtin import IntegerAttr, IntegerType, ModuleOp
+from xdsl.dialects.builtin import ModuleOp
 from xdsl.interpreter import Interpreter, InterpreterFunctions, impl, register_impls
-from xdsl.ir import Attribute, Operation, OpResult, SSAValue, TypeAttribute
+from xdsl.ir import (
+    Attribute,
+    Operation,
+    OpResult,
+    SSAValue,
+    TypeAttribute,
+    TypedAttribute,
+)
 from xdsl.irdl import IRDLOperation
 from xdsl.pattern_rewriter import PatternRewriter, RewritePattern
 from xdsl.utils.exceptions import InterpretationError
-from xdsl.utils.hints import isa
 
 
 @dataclass
@@ -139,12 +145,12 @@ class PDLMatcher:
             assert isinstance(pdl_op.value_type, OpResult)
             assert isinstance(pdl_op.value_type.op, pdl.TypeOp)
 
-            assert isa(xdsl_attr, IntegerAttr[IntegerType]), (
-                "Only handle integer types for now"
-            )
+            # An attribute without a type does not satisfy a type constraint
+            if not isinstance(xdsl_attr, TypedAttribute):
+                return False
 
             if not self.match_type(
-                pdl_op.value_type, pdl_op.value_type.op, xdsl_attr.type
+                pdl_op.value_type, pdl_op.value_type.op, xdsl_attr.get_type()
             ):
                 return False
 
